@@ -51,6 +51,10 @@ text (the chain of fresh queries from the start, read from the oracle table). -/
 def verdictFor (a : Alpha) (nns : Nat → List (List Cell) → Bool) (cells : List Cell) (width : Nat) (impl : String) : String :=
   if impl = "hang" then s!"FAIL termination w={width} the scanner does not terminate"
   else if impl = "panic" then s!"FAIL panic w={width}"
+  else if impl.startsWith "alias:" then
+    -- the harness's aliasing oracle: the scanner wrote into the caller's cells (or behind them), or a
+    -- later Scan changed a line already returned
+    s!"FAIL aliasing w={width} {(impl.splitOn ":").getD 1 "?"}"
   else match decLines a impl with
   | none => s!"FAIL unparsable result w={width}"
   | some ls =>
@@ -350,7 +354,8 @@ def step (line : String) : String :=
       let cells := (ids.zip stys).map fun p => mkCell a p.1 p.2
       let model := encLines (hardLines cells)
       -- oracle: the lines are the input split at the hard line breaks (a final one adds no line)
-      let v := match decLines a impl with
+      let v := if impl.startsWith "alias:" then s!"FAIL aliasing hardwrap {(impl.splitOn ":").getD 1 "?"}" else
+        match decLines a impl with
         | none => "FAIL hard unparsable"
         | some ls =>
           let joined : List (List Nat) := ls.map fun (l : List Cell) => l.map tokOf
